@@ -30,7 +30,7 @@ class TempProject:
 
     def __init__(self, version_pattern, current_version, files=None, contents=None, fmt="bumpver.toml", commit=False, tag=False,
                  push=False, tag_scope=None, vcs=None, vcs_cfg=None, hooks=None, commit_message=None, tag_message=None,
-                 line_sep="\n", extra_cfg_lines=(), quote_cfg=True):
+                 line_sep="\n", extra_cfg_lines=(), quote_cfg=True, cfg_prefix=""):
         self.version_pattern = version_pattern
         self.current_version = current_version
         self.files = dict(files or {})
@@ -46,6 +46,7 @@ class TempProject:
         self.line_sep = line_sep
         self.extra_cfg_lines = list(extra_cfg_lines)
         self.quote_cfg = quote_cfg
+        self.cfg_prefix = cfg_prefix     # text placed before the bumpver section (other tools' sections)
         self.dir = None
 
     # ------------------------------------------------------------------ construction
@@ -116,7 +117,7 @@ class TempProject:
                 lines.append("%s =" % path)
                 for p in pats:
                     lines.append("    %s" % p)
-        return "\n".join(lines) + "\n"
+        return self.cfg_prefix + "\n".join(lines) + "\n"
 
     def _write_all(self):
         with open(self.path(self.fmt), "w", encoding="utf-8", newline="") as f:
